@@ -68,6 +68,9 @@ type Strategy struct {
 	// Edge*: the transaction is signed by the rig and lands in the last block of its phase (still in
 	// phase). Late* wins if both are set.
 	EdgeCommit, EdgeEval, EdgeAccusation, EdgeApology bool
+	// Unsolicited[j]: in the apologizing phase the keyper sends an apology naming keyper j as accuser, with a value
+	// that does not verify, although j never accused it (the chain accepts such a message).
+	Unsolicited []bool
 	// EvalFirst puts the polynomial evaluations on the chain before the commitment (same block or
 	// earlier), which the honest sender never does.
 	EvalFirst bool
@@ -125,6 +128,11 @@ func (s Strategy) String() string {
 	}
 	if s.EvalFirst {
 		b.WriteString(" evalfirst")
+	}
+	for j, u := range s.Unsolicited {
+		if u {
+			fmt.Fprintf(&b, " unsolicited-apology->%d", j)
+		}
 	}
 	if s.Faithful {
 		b.WriteString(" faithful")
@@ -217,6 +225,12 @@ func RandomStrategy(r *hx.Rand, n, byzIndex int) Strategy {
 	s.LateCommit, s.LateEval, s.LateAccusation, s.LateApology = r.Chance(15), r.Chance(15), r.Chance(15), r.Chance(15)
 	s.EdgeCommit, s.EdgeEval, s.EdgeAccusation, s.EdgeApology = r.Chance(15), r.Chance(15), r.Chance(15), r.Chance(15)
 	s.EvalFirst = r.Chance(30)
+	if r.Chance(25) {
+		s.Unsolicited = make([]bool, n)
+		for j := 0; j < n; j++ {
+			s.Unsolicited[j] = j != byzIndex && r.Chance(50)
+		}
+	}
 	return s
 }
 
@@ -486,6 +500,32 @@ func (r *Rig) byzTick(next int64) {
 				continue
 			}
 			r.Chain.Submit(r.signAs(k.Index, m), fmt.Sprintf("byz:%d:accusation", k.Index))
+		}
+	}
+	// unsolicited apologies: early in the apologizing phase
+	for _, k := range r.Keypers {
+		if k.Strategy == nil || len(k.Strategy.Unsolicited) == 0 {
+			continue
+		}
+		for eon, start := range r.EonStart {
+			if k.unsolicitedSent[eon] || next < start+2*L+2 {
+				continue
+			}
+			if k.unsolicitedSent == nil {
+				k.unsolicitedSent = map[uint64]bool{}
+			}
+			k.unsolicitedSent[eon] = true
+			var accusers []common.Address
+			var vals []*big.Int
+			for j, u := range k.Strategy.Unsolicited {
+				if u && j != k.Index && j < len(r.Keypers) {
+					accusers = append(accusers, r.Keypers[j].Address)
+					vals = append(vals, big.NewInt(int64(4242+j)))
+				}
+			}
+			if len(accusers) > 0 {
+				r.Chain.Submit(r.signAs(k.Index, shmsg.NewApology(eon, accusers, vals)), fmt.Sprintf("byz:%d:unsolicited-apology", k.Index))
+			}
 		}
 	}
 }
